@@ -307,6 +307,31 @@ def topdownForward {β : Type} (inst : Rec α V ι E → β) (mi : Option Nat) (
     List (List β) :=
   (centroidCrop mi batch).map (·.map inst)
 
+/-! ### bottom-up -/
+
+/-- `BottomUpInferenceModel.forward`: `find_local_peaks` on the batch gives one flat list tagged by
+sample index; `_generate_cms_peaks` splits it again (`sample_inds == b` for `b in range(batch)`);
+`PAFScorer.predict` groups each sample's peaks on their own (`group`, sample-wise); row `idx` is
+decoded with `eff_scale[idx]` (`decode`, which also carries the `/ input_scale`). -/
+def bottomupForward {β γ : Type} (group : List (Peak α V) → β) (decode : E → β → γ)
+    (batch : List (Frame α V ι E)) : List γ :=
+  let flat := flatFrom 0 batch
+  let per := (List.range batch.length).map fun b => group ((flat.filter (fun e => e.1 == b)).map (·.2))
+  (per.zip (batch.map (·.eff))).map fun (g, e) => decode e g
+
+/-- the consumer (`_make_labeled_frames_from_generator`) zips `video_idx`, `frame_idx` and the
+per-sample outputs -/
+def bottomupRecords {β γ : Type} (group : List (Peak α V) → β) (decode : E → β → γ)
+    (batch : List (Frame α V ι E)) : List (ι × ι × γ) :=
+  (batch.map (·.fidx)).zip ((batch.map (·.vidx)).zip (bottomupForward group decode batch))
+
+/-- the `max_instances` filter of the bottom-up consumer: `sorted(key=score, reverse=True)[:k]`
+(stable), nothing when unset; instances travel as `Peak` (payload, score) -/
+def keepTop (mi : Option Nat) (l : List (Peak α V)) : List (Peak α V) :=
+  match mi with
+  | none => l
+  | some k => topk k l
+
 end plumbing
 
 /-- `_predict_generator`: read up to `B` frames per round until the sentinel -/
